@@ -20,7 +20,8 @@ Leaves ==
     T("EnumType", "", <<>>, <<"x">>), T("EnumType", "", <<>>, <<"x", "y">>),
     T("BoundaryType", "float", <<>>, <<"0", "1", "in", "in">>), T("BoundaryType", "float", <<>>, <<"0", "1", "in", "ex">>),
     T("BoundaryType", "int", <<>>, <<"0", "Infinity", "in", "in">>), T("BoundaryType", "int", <<>>, <<"0", "Infinity", "in", "ex">>),
-    T("BoundaryType", "int", <<>>, <<"NegativeInfinity", "5", "ex", "in">>),
+    T("BoundaryType", "int", <<>>, <<"NegativeInfinity", "5", "ex", "in">>), T("BoundaryType", "float", <<>>, <<"NegativeInfinity", "Infinity", "in", "in">>),
+    T("BoundaryType", "int", <<>>, <<"NegativeInfinity", "5", "in", "ex">>),
     T("LiteralType", "", <<>>, <<"i:1">>), T("LiteralType", "", <<>>, <<"s:a">>), T("LiteralType", "", <<>>, <<"i:1", "s:a">>),
     T("LiteralType", "", <<>>, <<"s:a", "i:1">>), T("LiteralType", "", <<>>, <<"b:true">>), T("LiteralType", "", <<>>, <<"s:a", "s:a">>),
     T("TypeVarType", "T", <<>>, <<>>) }
